@@ -37,6 +37,7 @@ import shutil
 import subprocess
 import threading
 
+from .. import c15_gen as G
 from .. import c15_lib as L
 from .. import rustext, tlc
 from ..core import VERIF, MachineryError, git_available
@@ -319,6 +320,302 @@ def phase_enum(ctx, fnd):
     return per_family
 
 
+# =========================================================================== T: recorded executions judged by TLC
+def octal_digits(m):
+    if not isinstance(m, int) or isinstance(m, bool) or m < 0:
+        return [99]
+    out = []
+    while m:
+        out.append(m & 7)
+        m >>= 3
+    return out[::-1]
+
+
+def _hexl(h):
+    return list(bytes.fromhex(h))
+
+
+def trace_obs(fam, inp, obs, details):
+    """Observation list of one child for one case -> the records EquivTrace reads."""
+    out = []
+    for v, o in enumerate(obs):
+        if fam == "cdelta":
+            d = details.get("delta" if v == 0 else "delta_chunks")
+            out.append({"k": "v", "d": _hexl(d)} if d is not None else {"k": "f"})
+            continue
+        if o[0] == "f":
+            out.append({"k": "f"})
+        elif fam == "pttrace":
+            out.append({"k": "v", "e": [[octal_digits(m), _hexl(n), _hexl(s) if len(s) % 2 == 0 else [256]] for n, m, s in o[1]]})
+        elif fam == "items":
+            out.append({"k": "v", "e": [[_hexl(p), G.TAG_OF.get(m, "?") if (t == "TreeEntry" and s == L.item_sha(bytes.fromhex(p)).decode()) else "!"]
+                                        for t, p, m, s in o[1]]})
+        elif fam == "deltatrace":
+            out.append({"k": "v", "out": _hexl(o[1])})
+        elif fam == "bisect":
+            out.append({"k": "none"} if o[1] is None else {"k": "val", "i": o[1]} if isinstance(o[1], int) and o[1] >= 0 else {"k": "val", "i": 100000})
+        elif fam == "merge":
+            pre = L.PREFIX[inp[0]]
+            pre = pre + b"/" if pre else pre
+            ids = {v_.decode(): k for k, v_ in L.IDS.items()}
+
+            def e(x):
+                if x is None:
+                    return []
+                t, p, m, s = x
+                p = bytes.fromhex(p)
+                name = list(p[len(pre):]) if p.startswith(pre) and t == "TreeEntry" else [0]
+                return [name, G.TAG_OF.get(m, "?"), ids.get(s, "?")]
+            out.append({"k": "v", "e": [[e(a), e(b)] for a, b in o[1]]})
+        elif fam == "blocks":
+            out.append({"k": "v", "totals": sorted(t for _, t in o[1])} if o[1] is not None else None)
+    return out
+
+
+def make_trace(tid, fam, inp, py, rs, dpy, drs):
+    tp, tr = trace_obs(fam, inp, py, dpy), trace_obs(fam, inp, rs, drs)
+    keep = [k for k in range(len(tp)) if tp[k] is not None and tr[k] is not None]
+    t = {"tid": tid, "py": [tp[k] for k in keep], "rs": [tr[k] for k in keep]}
+    if fam == "pttrace":
+        t.update(fam="pt", text=_hexl(inp[0]), shaLen=inp[1])
+    elif fam == "items":
+        t.update(fam="items", items=inp[0], no=inp[1])
+    elif fam == "deltatrace":
+        t.update(fam="delta", base=_hexl(inp[0]), delta=_hexl(inp[1]))
+    elif fam == "cdelta":
+        t.update(fam="cdelta", base=_hexl(inp[0]), target=_hexl(inp[1]))
+    elif fam == "bisect":
+        t.update(fam="bisect", table=inp[0], lo=inp[1], hi=inp[2], key=inp[3])
+    elif fam == "merge":
+        t.update(fam="merge", t1=inp[1], t2=inp[2])
+    elif fam == "blocks":
+        t.update(fam="blocks", content=_hexl(inp[0]))
+    return t, keep
+
+
+def run_cases_both(ctx, cases, nsplit):
+    """cases: list of {"fam", "inp"} -> (obs {mode: [obs list per case]}, details {mode: {i: {}}})"""
+    d = ctx.tmpdir("cases")
+    chunks = [list(range(i, len(cases), nsplit)) for i in range(nsplit)]
+    chunks = [c for c in chunks if c]
+    paths = []
+    for k, idxs in enumerate(chunks):
+        p = os.path.join(d, f"c{k}.ndjson")
+        with open(p, "w") as f:
+            for i in idxs:
+                f.write(json.dumps(cases[i], separators=(",", ":")) + "\n")
+        paths.append(p)
+    obs = {m: [None] * len(cases) for m in MODES}
+    det = {m: {} for m in MODES}
+    with cf.ThreadPoolExecutor(max_workers=2 * len(paths)) as ex:
+        futs = {(m, k): ex.submit(run_child, ctx, m, {"kind": "cases", "path": paths[k]}) for m in MODES for k in range(len(paths))}
+        for (m, k), fu in futs.items():
+            out = fu.result()
+            with open(out) as f:
+                lines = f.read().splitlines()
+            if len(lines) != len(chunks[k]):
+                raise MachineryError(f"C15 cases child returned {len(lines)} of {len(chunks[k])} observations")
+            dd = read_details(out, set(range(len(lines))))
+            for j, i in enumerate(chunks[k]):
+                obs[m][i] = json.loads(lines[j][3:])
+                if j in dd:
+                    det[m][i] = dd[j]
+            shutil.rmtree(os.path.dirname(out), ignore_errors=True)
+    shutil.rmtree(d, ignore_errors=True)
+    return obs, det
+
+
+def tlc_verdicts(ctx, traces, label):
+    """-> {tid: verdict list}"""
+    out = {}
+    if not traces:
+        return out
+    d = ctx.tmpdir("tr")
+    B = 2500
+    for i in range(0, len(traces), B):
+        chunk = traces[i:i + B]
+        path = os.path.join(d, f"t{i}.ndjson")
+        with open(path, "w") as f:
+            for t in chunk:
+                f.write(json.dumps(t, separators=(",", ":")) + "\n")
+        res = tlc.run("EquivTrace.tla", "EquivTrace.cfg", workers=1, timeout=3000, env={"TRACE_FILE": path}, java_opts=["-Xss256m"])
+        ctx.add_tlc(f"EquivTrace[{label}:{i}] ({len(chunk)} recorded executions)", res)
+        n = 0
+        for line in res.output.splitlines():
+            if line.startswith('"<<\\"VERDICT\\"'):
+                v = L._val(line.strip()[1:-1].replace('\\"', '"'))
+                out[v[1]] = v
+                n += 1
+        if n != len(chunk):
+            raise MachineryError(f"trace validation incomplete ({n}/{len(chunk)} verdicts)\n{res.output[-2000:]}")
+    shutil.rmtree(d, ignore_errors=True)
+    return out
+
+
+TRACE_CONTROLS = [
+    # (name, trace, which verdict component must contain a FALSE: 4 = eq, 5 = pyOk, 6 = rsOk)
+    ("parse_tree: one side drops an entry", {"fam": "pt", "text": list(b"7 a\0" + b"s" * 20), "shaLen": 20,
+                                             "py": [{"k": "v", "e": [[[7], [97], [115] * 20]]}] * 2, "rs": [{"k": "v", "e": []}] * 2}, (4, 6)),
+    ("parse_tree: both accept a signed mode", {"fam": "pt", "text": list(b"-7 a\0" + b"s" * 20), "shaLen": 20,
+                                               "py": [{"k": "v", "e": [[[7], [97], [115] * 20]]}] * 2, "rs": [{"k": "v", "e": [[[7], [97], [115] * 20]]}] * 2}, (5, 6)),
+    ("sorted_tree_items: directory sorted as a file", {"fam": "items", "items": [[[97], "T"], [[97, 46], "F"]], "no": 0,
+                                                       "py": [{"k": "v", "e": [[[97], "T"], [[97, 46], "F"]]}], "rs": [{"k": "v", "e": [[[97, 46], "F"], [[97], "T"]]}]}, (4, 5)),
+    ("apply_delta: corrupted output byte", {"fam": "delta", "base": [97, 98], "delta": [2, 3, 0x90, 2, 1, 120],
+                                           "py": [{"k": "v", "out": [97, 98, 120]}], "rs": [{"k": "v", "out": [97, 99, 120]}]}, (4, 6)),
+    ("create_delta: delta that decodes to something else", {"fam": "cdelta", "base": [97, 98], "target": [97, 98, 99],
+                                                           "py": [{"k": "v", "d": [2, 3, 0x90, 2, 1, 99]}], "rs": [{"k": "v", "d": [2, 3, 0x90, 2, 1, 100]}]}, (4, 6)),
+    ("create_delta: one encoder fails", {"fam": "cdelta", "base": [97, 98], "target": [97],
+                                         "py": [{"k": "f"}], "rs": [{"k": "v", "d": [2, 1, 0x90, 1]}]}, (4, 5)),
+    ("bisect_find_sha: off by one", {"fam": "bisect", "table": [2, 4, 6], "lo": 0, "hi": 2, "key": 4,
+                                     "py": [{"k": "val", "i": 1}], "rs": [{"k": "val", "i": 2}]}, (4, 6)),
+    ("bisect_find_sha: miss reported for a present id", {"fam": "bisect", "table": [2, 4, 6], "lo": 0, "hi": 2, "key": 6,
+                                                         "py": [{"k": "none"}], "rs": [{"k": "none"}]}, (5, 6)),
+    ("_merge_entries: pair split", {"fam": "merge", "t1": [1, [[[97], "F", "x"]]], "t2": [1, [[[97], "F", "y"]]],
+                                    "py": [{"k": "v", "e": [[[[97], "F", "x"], [[97], "F", "y"]]]}],
+                                    "rs": [{"k": "v", "e": [[[[97], "F", "x"], []], [[], [[97], "F", "y"]]]}]}, (4, 6)),
+    ("_count_blocks: block cut at 63", {"fam": "blocks", "content": [120] * 70,
+                                        "py": [{"k": "v", "totals": [6, 64]}], "rs": [{"k": "v", "totals": [7, 63]}]}, (4, 6)),
+]
+
+
+def phase_traces(ctx, fnd):
+    import random
+    rng = random.Random(ctx.seed * 7919 + 15)
+    k = ctx.pick(1, 8)
+    cases = []
+    cases += [{"fam": "pttrace", "inp": c} for c in G.tree_payloads(rng, ctx.seed, 350 * k)]
+    cases += [{"fam": "items", "inp": c} for c in G.item_dicts(rng, 120 * k)]
+    cases += [{"fam": "cdelta", "inp": c} for c in G.delta_pairs(rng, ctx.seed, 120 * k)]
+    cases += [{"fam": "bisect", "inp": c} for c in G.bisect_cases(rng, 250 * k)]
+    cases += [{"fam": "merge", "inp": c} for c in G.merge_cases(rng, 120 * k)]
+    cases += [{"fam": "blocks", "inp": c} for c in G.blob_contents(rng, 60 * k)]
+    obs, det = run_cases_both(ctx, cases, ctx.pick(2, 4))
+    # second stage: every delta an encoder produced, and mutations of it, through both decoders
+    seen = set()
+    dcases = []
+    for i, c in enumerate(cases):
+        if c["fam"] != "cdelta":
+            continue
+        for m in MODES:
+            for key in ("delta", "delta_chunks"):
+                d = det[m].get(i, {}).get(key)
+                if d is None:
+                    continue
+                for dd in [d] + [G.mutate_delta(rng, bytes.fromhex(d)).hex() for _ in range(2)]:
+                    if (c["inp"][0], dd) not in seen:
+                        seen.add((c["inp"][0], dd))
+                        dcases.append({"fam": "deltatrace", "inp": [c["inp"][0], dd]})
+    obs2, det2 = run_cases_both(ctx, dcases, ctx.pick(2, 4))
+    all_cases = cases + dcases
+    for m in MODES:
+        obs[m] += obs2[m]
+        det[m].update({len(cases) + i: v for i, v in det2[m].items()})
+    ctx.count(2 * len(all_cases))
+    traces, keeps = [], {}
+    for i, c in enumerate(all_cases):
+        t, keep = make_trace(i + 1, c["fam"], c["inp"], obs["py"][i], obs["rs"][i], det["py"].get(i, {}), det["rs"].get(i, {}))
+        traces.append(t)
+        keeps[i + 1] = keep
+    n0 = len(traces)
+    for name, t, _ in TRACE_CONTROLS:
+        traces.append(dict(t, tid=len(traces) + 1))
+    verdicts = tlc_verdicts(ctx, traces, "recorded")
+    # negative controls of the binding: observations that contradict the property / the reference
+    # must be refused by EquivTrace
+    for j, (name, t, must_fail) in enumerate(TRACE_CONTROLS):
+        v = verdicts[n0 + 1 + j]
+        for comp in must_fail:
+            if all(v[comp]):
+                raise MachineryError(f"binding control '{name}' was accepted by EquivTrace (component {comp}): {v}")
+    ctx.cov["binding_negative_controls_refused"] = len(TRACE_CONTROLS)
+    stats = new_stats()
+    per = {}
+    sampled = set()
+    for i, c in enumerate(all_cases):
+        fam, inp = c["fam"], c["inp"]
+        v = verdicts[i + 1]
+        _, _, _, summ, eq, pyok, rsok = v[:7]
+        py, rs = obs["py"][i], obs["rs"][i]
+        keep = keeps[i + 1]
+        ctx.validated(2)
+        st = per.setdefault(GROUP[fam], {"executions": 0, "divergent": 0, "nontrivial": 0})
+        st["executions"] += 2
+        if any(o[0] == "v" for o in py + rs):
+            st["nontrivial"] += 1
+            ctx.nontrivial(("trace", fam, json.dumps(inp, separators=(",", ":"))))
+            if fam not in sampled and all(eq) and all(pyok):
+                sampled.add(fam)
+                ctx.sample({"recorded": render_input(fam, inp)[:300], "py": py, "rs": rs, "tlc_verdict": {"eq": eq, "py_ok": pyok, "rs_ok": rsok}}, limit=16)
+        if fam == "bisect" and not v[7]:
+            raise MachineryError(f"FindLemma fails on a recorded table: {inp}")
+        reported = False
+        for j, var in enumerate(keep):
+            same = py[var] == rs[var]
+            if fam != "cdelta" and eq[j] and not same:
+                if fam == "blocks":
+                    eq[j] = False        # same totals, different keys: the exact comparison decides
+                else:
+                    raise MachineryError(f"EquivTrace says equal, the recorded observations differ: {fam} {inp} {py[var]} {rs[var]}")
+            if fam != "cdelta" and not eq[j] and same:
+                raise MachineryError(f"EquivTrace says different, the recorded observations are equal: {fam} {inp} {py[var]}")
+            if eq[j]:
+                if not pyok[j]:
+                    key = f"{GROUP[fam]}:{classify_trace(fam, inp, summ, var)}"
+                    stats["drift"][key] = stats["drift"].get(key, 0) + 1
+                    if stats["drift"][key] == 1:
+                        ctx.drift_event(f"{GROUP[fam]}: both implementations return {L.describe_obs(py[var])} for {render_input(fam, inp)[:300]} "
+                                        f"variant {var}, outside the reference semantics [{key}]")
+                continue
+            st["divergent"] += 1
+            if reported and fam in ("deltatrace", "blocks", "cdelta"):
+                continue
+            reported = True
+            psite, rsite = L.SITES[fam]
+            site = rsite if pyok[j] and not rsok[j] else psite if rsok[j] and not pyok[j] else psite + "+" + rsite
+            if fam == "cdelta":
+                clause = f"delta-does-not-decode-to-target(py={'ok' if pyok[j] else 'bad'},rs={'ok' if rsok[j] else 'bad'})"
+            else:
+                refkind = ref_kind(fam, summ, var, py[var], rs[var], pyok[j], rsok[j])
+                kinds = f"py={'value' if py[var][0] == 'v' else 'fail'},rs={'value' if rs[var][0] == 'v' else 'fail'},ref={refkind}"
+                clause = ("different-values" if py[var][0] == "v" and rs[var][0] == "v" else
+                          "python-accepts-rust-fails" if py[var][0] == "v" else "rust-accepts-python-fails") + f"({kinds})"
+            sig = f"{site}|{GROUP[fam]}:{clause}|{classify_trace(fam, inp, summ, var)}"
+            what = (f"{render_input(fam, inp)[:400]}: pure Python -> {L.describe_obs(py[var])}; Rust -> {L.describe_obs(rs[var])}; "
+                    f"TLC (EquivTrace): equal={eq[j]} python-inside-reference={pyok[j]} rust-inside-reference={rsok[j]}")
+            fnd.add(sig, what, {"kind": "trace", "fam": fam, "inp": inp, "variant": var, "py": py, "rs": rs,
+                                "py_details": det["py"].get(i, {}), "rs_details": det["rs"].get(i, {}),
+                                "tlc_verdict": v, "call": render_input(fam, inp), "origin": "recorded execution"}, L.case_size(inp))
+    ctx.cov["recorded"] = per
+    if stats["drift"]:
+        ctx.cov["recorded_agree_with_each_other_not_with_reference"] = stats["drift"]
+
+
+def ref_kind(fam, summ, var, py, rs, pyok, rsok):
+    if fam == "pttrace":
+        return "value" if summ[var][0] == "ok" else "fail"
+    if fam == "deltatrace":
+        return "value" if summ[0] == "ok" else "fail"
+    if fam == "bisect":
+        return "fail" if summ[0] == "fail" else "value"
+    return "value"
+
+
+def classify_trace(fam, inp, summ, var):
+    """Class of a recorded case, in the vocabulary of c15_lib.bucket."""
+    if fam == "pttrace":
+        r = summ[var]
+        exp = [None, None]
+        exp[var] = [r[0], r[1], r[2], [], r[3]]
+        return L.bucket(fam, inp, exp, var, ["f"], ["f"], ["f"])[2]
+    if fam == "deltatrace":
+        return L.bucket(fam, inp, [summ[0], summ[1], [], summ[2], []], var, ["f"], ["f"], ["f"])[2]
+    if fam == "bisect":
+        return L.bucket(fam, inp, [summ[0], 0], var, ["f"], ["f"], ["f"])[2]
+    if fam == "cdelta":
+        return ("create_delta", "create_delta(chunk lists)")[var]
+    return L.bucket(fam, inp, None, var, ["f"], ["f"], ["f"])[2]
+
+
 # =========================================================================== run / replay
 def run(ctx):
     rustext.build()
@@ -331,7 +628,10 @@ def run(ctx):
         "reference semantics of parse_tree includes one shared leniency of both implementations (a single leading '+' in a mode); anything else on which both agree against the reference is reported as SPEC-DRIFT",
     ]
     fnd = Findings(ctx)
-    phase_enum(ctx, fnd)
+    with cf.ThreadPoolExecutor(max_workers=2) as bg:
+        ft = bg.submit(phase_traces, ctx, fnd)
+        phase_enum(ctx, fnd)
+        ft.result()
     fnd.flush()
     return ctx.finish(exhaustive=True)
 
